@@ -188,6 +188,43 @@ Proof.
   - eexists. vm_compute. reflexivity.
 Qed.
 
+(* non-vacuity of the ITS tier of the whole-run theorem: the example link of C01_its_nonvacuous (two heartbeat frames, a packet continued
+   over three pages, no-data TDHs, format 2) rendered for link ids 3 and 4, RDHs encoded to bytes, the two links interleaved packet by
+   packet: `check all its` on the whole input ends with zero errors and exit status 0 although -E 5 is configured *)
+Definition c01i_ld (l : N) : link_desc :=
+  {| l_link := l; l_fee := l_fee C01_its.Example.ld; l_version := l_version C01_its.Example.ld; l_system := l_system C01_its.Example.ld;
+     l_format := l_format C01_its.Example.ld; l_cru := l_cru C01_its.Example.ld; l_dw := l_dw C01_its.Example.ld; l_hbfs := l_hbfs C01_its.Example.ld |}.
+Definition c01i_pkts : list packet := c01w_merge (map c01w_pk (render_link (c01i_ld 3))) (map c01w_pk (render_link (c01i_ld 4))).
+Definition c01i_cfg : run_cfg :=
+  {| rc_scan := {| sc_filter := None; sc_skip := false; sc_src := Src_file |}; rc_check := its_cfg true;
+     rc_mute := false; rc_cap := 0; rc_filter := None; rc_exit := Some 5; rc_counts := {| cc_cdps := None; cc_pht := None |} |}.
+Example C01_whole_run_its_nonvacuous :
+  Forall wf_pkt c01i_pkts /\ length c01i_pkts = 16%nat /\ recognised (serialize c01i_pkts) = true /\
+  (let cdps := map (mk_cdp (rc_scan c01i_cfg)) (selected (rc_scan c01i_cfg) 0 c01i_pkts) in
+   forall id, sel (rc_check c01i_cfg) id cdps <> [] ->
+     exists ld chs, wf_link_its_cdw ld chs /\ map strip (sel (rc_check c01i_cfg) id cdps) = render_link ld) /\
+  exists s, run_check true c01i_cfg (serialize c01i_pkts) = R_done s [] 0.
+Proof.
+  assert (Wl : forall l, wf_link_its (c01i_ld l) [C01_its.Example.ih 10; C01_its.Example.ih 11]).
+  { intros l. destruct C01_its.Example.example_wf as [(W1 & W2 & W3 & W4) _]. unfold wf_link_its, c01i_ld. cbn [l_system l_format l_hbfs].
+    split; [|split; [exact W2|split; [exact W3|exact W4]]]. revert W1. unfold wf_link_rdh. cbn. intros W1.
+    destruct (N.eq_dec l 3) as [->|N3]; [vm_compute; reflexivity|]. clear N3. exact W1. }
+  split; [repeat constructor; apply wf_pktb_sound; vm_compute; reflexivity|].
+  split; [reflexivity|]. split; [vm_compute; reflexivity|]. split.
+  - cbv zeta. intros id Hs.
+    destruct (N.eq_dec id 3) as [->|N3];
+      [exists (c01i_ld 3), (map lift_hbf [C01_its.Example.ih 10; C01_its.Example.ih 11]); split;
+         [apply plain_link_is_calibration_link, Wl|vm_compute; reflexivity]|].
+    destruct (N.eq_dec id 4) as [->|N4];
+      [exists (c01i_ld 4), (map lift_hbf [C01_its.Example.ih 10; C01_its.Example.ih 11]); split;
+         [apply plain_link_is_calibration_link, Wl|vm_compute; reflexivity]|].
+    exfalso. apply Hs. unfold sel. apply C06_proofs.filter_none. intros q Hq.
+    assert (Hd : (disp_id (rc_check c01i_cfg) q =? 3) || (disp_id (rc_check c01i_cfg) q =? 4) = true).
+    { revert q Hq. apply forallb_forall. vm_compute. reflexivity. }
+    apply N.eqb_neq. apply orb_true_iff in Hd. destruct Hd as [Hd|Hd]; apply N.eqb_eq in Hd; congruence.
+  - eexists. vm_compute. reflexivity.
+Qed.
+
 Print Assumptions C01_rdh_tier.
 Print Assumptions C01_its_tier.
 Print Assumptions C01_stave_tier.
@@ -213,3 +250,4 @@ Print Assumptions C01_whole_run_rdh_tier.
 Print Assumptions C01_whole_run_its_tier.
 Print Assumptions C01_whole_run_stave_tier.
 Print Assumptions C01_whole_run_nonvacuous.
+Print Assumptions C01_whole_run_its_nonvacuous.
